@@ -298,6 +298,8 @@ def parent_main(prop, modname, tier, seed, nshards, wall):
     t0 = time.time()
     work = os.path.join(boot.VERIF, ".work", prop)
     os.makedirs(work, exist_ok=True)
+    import shutil
+    shutil.rmtree(os.path.join(boot.VERIF, "failures", prop), ignore_errors=True)
     procs = []
     env = dict(os.environ)
     env["PYTHONHASHSEED"] = "0"
